@@ -678,6 +678,29 @@ DRV_OP(OpOssOp, "oss.op") {
         std::swap(shuffled[i - 1], shuffled[gen() % i]);
       }
       items = shuffled;
+      // connections: a random interleaving that keeps the order of the parents of each operation
+      {
+        std::vector<std::pair<OJSON, std::vector<OJSON>>> groups;
+        for (const auto& c : doc["connections"]) {
+          auto it = std::find_if(groups.begin(), groups.end(), [&c](const auto& g) { return g.first == c.at(0); });
+          if (it == groups.end()) {
+            groups.emplace_back(c.at(0), std::vector<OJSON>{});
+            it = groups.end() - 1;
+          }
+          it->second.push_back(c);
+        }
+        OJSON mixed = OJSON::array();
+        std::vector<size_t> next(groups.size(), 0);
+        size_t left = doc["connections"].size();
+        while (left > 0) {
+          const auto g = gen() % groups.size();
+          if (next[g] < groups[g].second.size()) {
+            mixed.push_back(groups[g].second[next[g]++]);
+            --left;
+          }
+        }
+        doc["connections"] = mixed;
+      }
       w.schema.reset();
       w.schema = std::make_unique<oss::OSSchema>();
       doc.get_to(*w.schema);
